@@ -10,7 +10,9 @@ import (
 	"bytes"
 	"fmt"
 	"reflect"
+	"runtime"
 	"sort"
+	"sync"
 	"testing"
 
 	"github.com/eclipse/paho.mqtt.golang/packets"
@@ -667,3 +669,91 @@ func wellFormed(cp packets.ControlPacket) bool {
 	}
 	return true
 }
+
+// ---------------------------------------------------------------------------------------------
+// Concurrent encoders: the broker encodes on many goroutines at once (one per publisher / connection) and all of
+// them draw from one pool of encode buffers. Whatever the schedule, each encoder must emit the bytes the reference
+// encoder gives for ITS packet.
+
+// ConcCase is a set of packets, one batch per goroutine.
+type ConcCase struct {
+	Per    [][]Pkt `json:"per"`
+	Rounds int     `json:"rounds"`
+}
+
+func genConc(t *rapid.T) ConcCase {
+	c := ConcCase{Rounds: rapid.IntRange(5, 40).Draw(t, "rounds")}
+	g := rapid.IntRange(2, 8).Draw(t, "goroutines")
+	for i := 0; i < g; i++ {
+		var ps []Pkt
+		for j, n := 0, rapid.IntRange(1, 4).Draw(t, "n"); j < n; j++ {
+			p := genPkt(t)
+			if bodyLen(p)+5 > maxSize-1 {
+				continue
+			}
+			ps = append(ps, p)
+		}
+		c.Per = append(c.Per, ps)
+	}
+	return c
+}
+
+type yieldWriter struct{ b bytes.Buffer }
+
+func (w *yieldWriter) Write(p []byte) (int, error) {
+	runtime.Gosched() // the encoder still owns its pooled buffer here
+	return w.b.Write(p)
+}
+
+func runConc(c ConcCase) vkit.Result {
+	type job struct {
+		m    mqtt.Message
+		want []byte
+	}
+	jobs := make([][]job, len(c.Per))
+	distinct := map[string]bool{}
+	for i, ps := range c.Per {
+		for _, p := range ps {
+			var bp bytes.Buffer
+			if err := toPaho(p).Write(&bp); err != nil {
+				return vkit.Failf("harness: paho cannot encode: %v", err)
+			}
+			jobs[i] = append(jobs[i], job{toEmitter(p), append([]byte(nil), bp.Bytes()...)})
+			distinct[string(bp.Bytes())] = true
+		}
+	}
+	errs := make([]string, len(jobs))
+	var wg sync.WaitGroup
+	for i := range jobs {
+		wg.Add(1)
+		go func(i int) {
+			defer wg.Done()
+			for r := 0; r < c.Rounds && errs[i] == ""; r++ {
+				for k, j := range jobs[i] {
+					var w yieldWriter
+					if _, err := j.m.EncodeTo(&w); err != nil {
+						errs[i] = fmt.Sprintf("goroutine %d packet %d: encode error %v", i, k, err)
+						break
+					}
+					if got := w.b.Bytes(); !bytes.Equal(got, j.want) {
+						d := 0
+						for d < len(got) && d < len(j.want) && got[d] == j.want[d] {
+							d++
+						}
+						errs[i] = fmt.Sprintf("goroutine %d (of %d encoding concurrently), packet %d (type %d): encoded bytes differ from the reference encoding at offset %d (lengths %d/%d)", i, len(jobs), k, j.m.Type(), d, len(got), len(j.want))
+						break
+					}
+				}
+			}
+		}(i)
+	}
+	wg.Wait()
+	for _, e := range errs {
+		if e != "" {
+			return vkit.Failf("%s", e)
+		}
+	}
+	return vkit.OK(len(distinct) >= 2, fmt.Sprintf("goroutines-%d", len(jobs)))
+}
+
+func TestConcurrentEncode(t *testing.T) { vkit.Check(t, genConc, runConc) }
